@@ -92,6 +92,15 @@ def regen():
         sk = json.load(open(st5))
         rg['skeleton'] = rg.get('skeleton', []) + sk['functions']
         rg['untied'] = rg.get('untied', []) + sk['untied']
+    # ... and of the batch maker: the select! arms of BatchMaker::run and BatchMaker::seal (tools/skelbm.py -> coq/GenBM.v; coq/Tie_bm_step.v)
+    st6 = os.path.join(BUILD, 'skelbm.json')
+    rc, out, _ = sh([sys.executable, os.path.join(VERIF, 'tools', 'skelbm.py'), REPO, os.path.join(COQ, 'GenBM.v'), st6], 60)
+    if rc != 0:
+        rg['untied'] = rg.get('untied', []) + [['skelbm.py', out[-400:]]]
+    else:
+        sk = json.load(open(st6))
+        rg['skeleton'] = rg.get('skeleton', []) + sk['functions']
+        rg['untied'] = rg.get('untied', []) + sk['untied']
     return rg
 
 
@@ -560,7 +569,7 @@ def run_check(pid, P, tier, seed, replay, t0):
                 continue
             violations.append(('correspondence', 'model and implementation disagree on %s case %s' % (c['name'], case.get('case')), {'run': c['name'], 'case': strip(case)}, False))
     # an untied site (the translator no longer recognises the expression): the theorems are about a stale definition
-    rel_untied = [u for u in untied if u[0] in P.get('sites', []) or u[0] in ['gen_' + f for f in P.get('tie', [])] or (not P.get('sites') and not u[0].startswith('gen_')) or u[0] in ('regen.py', 'skel.py', 'skelagg.py', 'skelstore.py', 'skelqw.py')]
+    rel_untied = [u for u in untied if u[0] in P.get('sites', []) or u[0] in ['gen_' + f for f in P.get('tie', [])] or (not P.get('sites') and not u[0].startswith('gen_')) or u[0] in ('regen.py', 'skel.py', 'skelagg.py', 'skelstore.py', 'skelqw.py', 'skelbm.py')]
     if rel_untied and not violations:
         violations.append(('tie', 'regenerated definitions no longer tied to the source (site not recognised by tools/regen.py; the correspondence search found no difference): %s' % rel_untied, {'untied': rel_untied}, False))
     # 5. decide
@@ -626,7 +635,7 @@ def evidence(pid, P, tier, seed, obligations, discharged, supporting, names, cor
         'checker_cmd': 'cd /verif/coq && coq_makefile -f _CoqProject -o Makefile && make -j16 Props/%s.vo  (coqc 8.16.1, full .vo build; Print Assumptions of every pinned theorem audited against an empty allow-list)' % pid,
         'trusted_base': P.get('trusted_base', []) + [
             'Coq 8.16.1 kernel, vm_compute (no native_compute)', 'axioms: none (every pinned theorem: Closed under the global context)',
-            'tools/regen.py (translator of the decision expressions from the Rust source)', 'tools/skel.py + tools/skelagg.py + tools/skelstore.py + tools/skelqw.py + tools/rustparse.py (translators of the statement skeletons of core.rs/synchronizer.rs/messages.rs/aggregator.rs, of the store task loop of store/src/lib.rs and of the acknowledgement loop of mempool/src/quorum_waiter.rs into the model monads; coq/SkelPrims.v, coq/SkelMonad.v and coq/StoreSkel.v name the primitives)',
+            'tools/regen.py (translator of the decision expressions from the Rust source)', 'tools/skel.py + tools/skelagg.py + tools/skelstore.py + tools/skelqw.py + tools/skelbm.py + tools/rustparse.py (translators of the statement skeletons of core.rs/synchronizer.rs/messages.rs/aggregator.rs, of the store task loop of store/src/lib.rs of the acknowledgement loop of mempool/src/quorum_waiter.rs and of the arms and seal() of mempool/src/batch_maker.rs into the model monads; coq/SkelPrims.v, coq/SkelMonad.v and coq/StoreSkel.v name the primitives)',
             'correspondence harness /verif/harness (abstraction of keys to ranks, digests to symbolic terms, signatures to provenance)'],
         'theorems': names, 'supporting_lemmas_in_imported_files': supporting,
         'regenerated_skeletons': [{'name': k['name'], 'where': '%s: fn %s (line %s)' % (k.get('file'), k.get('fn'), k.get('line')), 'tied_by': 'coq/Tie_%s.v' % k['name'][4:], **({'untied': k['untied']} if not k.get('ok') else {})} for k in rg.get('skeleton', []) if k['name'][4:] in P.get('tie', [])],
